@@ -161,7 +161,7 @@ structure SecInv (o i : Nat) (B : Book) (uq : List Nat) (e : PExp) (p1 : Part) (
   idx : pa.idx = i
   addr : pa.addr = p1.addr
   tb : pa.totalBet = p1.totalBet
-  s : SInv ba (fun j => j ≠ i)
+  s : BkSInv ba (fun j => j ≠ i)
   q : QV ba (qvOf ba o uq)
   hasQ : (ba.getQueue o).isSome
   rndI : RndAt ba i
@@ -190,8 +190,8 @@ theorem SecInv.close {o i : Nat} {B : Book} {uq : List Nat} {e : PExp} {p1 pa : 
   obtain ⟨k1, k2, k3⟩ := Book.getExp_key hx
   have hx' : ba.getExp xe.odds xe.idx = some xe := by rw [k1, k2]; exact hx
   -- the book after the exposure is marked
-  have hSE : SInv (ba.setExp { xe with fulfilled := true }) (fun j => j ≠ i) :=
-    SInv.setExp h.s { xe with fulfilled := true } xe hx' rfl (fun j hj => ⟨hj, fun e2 => absurd (e2.trans k2) hj⟩)
+  have hSE : BkSInv (ba.setExp { xe with fulfilled := true }) (fun j => j ≠ i) :=
+    BkSInv.setExp h.s { xe with fulfilled := true } xe hx' rfl (fun j hj => ⟨hj, fun e2 => absurd (e2.trans k2) hj⟩)
   have hgeE : ∀ o'' j, ¬ (x = o'' ∧ i = j) → (ba.setExp { xe with fulfilled := true }).getExp o'' j = ba.getExp o'' j := by
     intro o'' j hne
     apply Book.getExp_setExp_ne
@@ -221,7 +221,7 @@ theorem SecInv.close {o i : Nat} {B : Book} {uq : List Nat} {e : PExp} {p1 pa : 
     intro bk
     unfold closeQ
     split <;> exact ⟨rfl, rfl, rfl, rfl, rfl, rfl⟩
-  have hcqQ : ∀ bk : Book, Sorted qkey bk.queues → (closeQ bk x i).queues.map (·.1) = bk.queues.map (·.1) ∧ Sorted qkey (closeQ bk x i).queues ∧
+  have hcqQ : ∀ bk : Book, Sorted qkeyQ bk.queues → (closeQ bk x i).queues.map (·.1) = bk.queues.map (·.1) ∧ Sorted qkeyQ (closeQ bk x i).queues ∧
       (∀ o'', o'' ≠ x → (closeQ bk x i).getQueue o'' = bk.getQueue o'') ∧
       (closeQ bk x i).getQueue x = (bk.getQueue x).map (fun q => q.filter (fun j => j != i)) := by
     intro bk hs
@@ -238,7 +238,7 @@ theorem SecInv.close {o i : Nat} {B : Book} {uq : List Nat} {e : PExp} {p1 pa : 
   have hgeC : ∀ o'' j, (closeQ (ba.setExp { xe with fulfilled := true }) x i).getExp o'' j = (ba.setExp { xe with fulfilled := true }).getExp o'' j := by
     intro o'' j; unfold Book.getExp; rw [c2]
   constructor
-  · refine ⟨h.idx, h.addr, h.tb, SInv.of_stores hSE c1 c2 c3 c4 c5 d1 d2, ?_, ?_, ?_, ?_, ?_, by rw [c1]; exact h.parts,
+  · refine ⟨h.idx, h.addr, h.tb, BkSInv.of_stores hSE c1 c2 c3 c4 c5 d1 d2, ?_, ?_, ?_, ?_, ?_, by rw [c1]; exact h.parts,
       by rw [c3]; exact h.hist, by rw [c4]; exact h.pc, by rw [c5]; exact h.oc, by rw [c6]; exact h.uid, ?_, ?_⟩
     · -- queues
       apply QV.mono h.q (by rw [c4]; rfl)
@@ -318,7 +318,7 @@ theorem secondaryFold_SecInv (o i : Nat) (thr : Int) (allExp : List PExp) (ms : 
     outcomes of `i` may be closed in the store -/
 theorem stage2_closed (o i : Nat) (mo : List Nat) (ms : List (Nat × Dec)) (thr : Int) (p1 : Part) (e1 : PExp) (f1 : FInfo)
     (p : Part) (e : PExp) (t : List Nat) (hmo : mo.Nodup)
-    (hS : SInv f1.book (fun _ => True)) (hQ : QV f1.book (qvOf f1.book o f1.uq)) (hasQ : (f1.book.getQueue o).isSome)
+    (hS : BkSInv f1.book (fun _ => True)) (hQ : QV f1.book (qvOf f1.book o f1.uq)) (hasQ : (f1.book.getQueue o).isSome)
     (huq : f1.uq = i :: t) (hp : f1.book.getPart i = some p) (hp1 : p1.idx = i ∧ p1.notFilled = p.notFilled)
     (hst : f1.book.getExp o i = some e) (hef : e.fulfilled = false)
     (hmx : ∀ o', f1.allExp.find? (fun y => y.odds == o' && y.idx == i) = f1.book.getExp o' i) :
@@ -369,16 +369,16 @@ open Sge Sge.Genesis
 
 /-- writing the in-memory participation and exposure of `i` back re-establishes the store invariant -/
 theorem writeback_spec (o i : Nat) (B2 : Book) (uq2 : List Nat) (p2 p : Part) (e e2 : PExp)
-    (hS : SInv B2 (fun j => j ≠ i)) (hR : RndAt B2 i) (hQ : QV B2 (qvOf B2 o uq2))
+    (hS : BkSInv B2 (fun j => j ≠ i)) (hR : RndAt B2 i) (hQ : QV B2 (qvOf B2 o uq2))
     (hst : B2.getExp o i = some e) (hp : B2.getPart i = some p)
     (he2 : e2.odds = o ∧ e2.idx = i ∧ e2.round = e.round)
     (hnf : (p2.notFilled : Int) = sumBy (unfAt i) B2.pexps - unfAt i e + unfAt i e2)
     (hcl : e2.fulfilled = true → i ∉ uq2) (hpi : p2.idx = i) :
-    SInv ((B2.setExp e2).setPart p2) (fun _ => True) ∧
+    BkSInv ((B2.setExp e2).setPart p2) (fun _ => True) ∧
     QV ((B2.setExp e2).setPart p2) (qvOf ((B2.setExp e2).setPart p2) o uq2) := by
   have h0 : B2.getExp e2.odds e2.idx = some e := by rw [he2.1, he2.2.1]; exact hst
-  have S1 : SInv (B2.setExp e2) (fun j => j ≠ i) :=
-    SInv.setExp hS e2 e h0 he2.2.2 (fun j hj => ⟨hj, fun c => absurd (c.trans he2.2.1) hj⟩)
+  have S1 : BkSInv (B2.setExp e2) (fun j => j ≠ i) :=
+    BkSInv.setExp hS e2 e h0 he2.2.2 (fun j hj => ⟨hj, fun c => absurd (c.trans he2.2.1) hj⟩)
   have R1 : RndAt (B2.setExp e2) i := RndAt.setExp hR hS.sE e2 e h0 he2.2.2
   have hsum : sumBy (unfAt i) (B2.setExp e2).pexps = sumBy (unfAt i) B2.pexps - unfAt i e + unfAt i e2 := by
     show sumBy (unfAt i) (upsert PExp.key e2 B2.pexps) = _
@@ -386,7 +386,7 @@ theorem writeback_spec (o i : Nat) (B2 : Book) (uq2 : List Nat) (p2 p : Part) (e
     have : lookup PExp.key (PExp.key e2) B2.pexps = some e := h0
     rw [this]
   constructor
-  · apply SInv.setPart S1 p2 p (by rw [hpi]; exact hp)
+  · apply BkSInv.setPart S1 p2 p (by rw [hpi]; exact hp)
     · intro j _
       refine ⟨fun hj => ?_, fun hj => by rw [hpi] at hj; exact hj⟩
       rw [hj, hpi, hsum]; exact hnf
@@ -637,7 +637,7 @@ theorem rollFold_items (elig : Bool) (o i : Nat) : ∀ (L : List PExp) (acc : Bo
       · rfl
     · rfl
 
-theorem RollInv.init (B : Book) (i : Nat) (hS : SInv B (fun _ => True)) : ∃ r, RollInv i r B (B.expsOfIdx i) B := by
+theorem RollInv.init (B : Book) (i : Nat) (hS : BkSInv B (fun _ => True)) : ∃ r, RollInv i r B (B.expsOfIdx i) B := by
   obtain ⟨r, r1, r2⟩ := hS.rnd i trivial
   have hmemL : ∀ pe, pe ∈ B.expsOfIdx i ↔ pe ∈ B.pexps ∧ pe.idx = i := by
     intro pe
@@ -743,9 +743,9 @@ theorem requeue_eq (f : FInfo) (p : Part) (e : PExp) (o : Nat) (hel : p.eligible
 
 /-- `refreshQueueAndState` for a participation all of whose exposures are closed -/
 theorem requeue_spec (o i : Nat) (f : FInfo) (p : Part) (e : PExp)
-    (hS : SInv f.book (fun _ => True)) (hQ : QV f.book (qvOf f.book o f.uq)) (hasQ : (f.book.getQueue o).isSome)
+    (hS : BkSInv f.book (fun _ => True)) (hQ : QV f.book (qvOf f.book o f.uq)) (hasQ : (f.book.getQueue o).isSome)
     (hp : f.book.getPart i = some p) (hel : p.eligiblePre = true) (hnf0 : p.notFilled = 0) (hiu : i ∉ f.uq) :
-    SInv (requeue f p e o).book (fun _ => True) ∧
+    BkSInv (requeue f p e o).book (fun _ => True) ∧
     QV (requeue f p e o).book (qvOf (requeue f p e o).book o (requeue f p e o).uq) ∧
     ((requeue f p e o).book.getQueue o).isSome ∧ (requeue f p e o).uq = f.uq ++ [i] ∧
     (requeue f p e o).book.partCount = f.book.partCount ∧ (requeue f p e o).book.uid = f.book.uid ∧
@@ -781,7 +781,7 @@ theorem requeue_spec (o i : Nat) (f : FInfo) (p : Part) (e : PExp)
   generalize (f.book.expsOfIdx i).foldl (rollOne true o i) (f.book, e, f.fmap) = R at hR hitems
   obtain ⟨d1, d2, d3⟩ := hR.done
   -- the store after the roll
-  have hSR : SInv R.1 (fun j => j ≠ i) := by
+  have hSR : BkSInv R.1 (fun j => j ≠ i) := by
     have hgp : ∀ j, R.1.getPart j = f.book.getPart j := by intro j; unfold Book.getPart; rw [hR.parts]
     refine ⟨by rw [hR.parts]; exact hS.sP, hR.sE, hR.sH, by rw [hR.queues]; exact hS.sQ, by rw [hR.parts, hR.pc]; exact hS.pIdx,
       by rw [hR.queues, hR.oc]; exact hS.oc, hR.eKey, hR.hKey, ?_, ?_, ?_, ?_⟩
@@ -804,8 +804,8 @@ theorem requeue_spec (o i : Nat) (f : FInfo) (p : Part) (e : PExp)
   have hp4f : p4.addr = p.addr ∧ p4.totalBet = p.totalBet ∧ p4.notFilled = R.1.oddsCount := by
     rw [← hp4]; exact ⟨rfl, rfl, rfl⟩
   have hgpR : R.1.getPart i = some p := by unfold Book.getPart; rw [hR.parts]; exact hp
-  have hS4 : SInv (R.1.setPart p4) (fun _ => True) := by
-    apply SInv.setPart hSR p4 p (by rw [hp4i]; exact hgpR)
+  have hS4 : BkSInv (R.1.setPart p4) (fun _ => True) := by
+    apply BkSInv.setPart hSR p4 p (by rw [hp4i]; exact hgpR)
     · intro j _
       refine ⟨fun hj => ?_, fun hj => by rw [hp4i] at hj; exact hj⟩
       rw [hj, hp4i, hp4f.2.2, d2, hR.cnt i, hR.oc]
@@ -842,7 +842,7 @@ theorem requeue_spec (o i : Nat) (f : FInfo) (p : Part) (e : PExp)
   have hunfJ : ∀ o' j, j ≠ i → f.book.unf o' j → B5.unf o' j := by
     intro o' j hj ⟨y, hy1, hy2⟩
     exact ⟨y, by rw [hge5, hR.ge o' j hj]; exact hy1, hy2⟩
-  refine ⟨SInv.of_stores hS4 f1 f2 f3 f4 f5 q2 q3, ?_, ?_, rfl, by rw [f4]; exact hR.pc, by rw [f6]; exact hR.uid, ?_, ?_, ?_, ?_, ?_, ?_, ?_⟩
+  refine ⟨BkSInv.of_stores hS4 f1 f2 f3 f4 f5 q2 q3, ?_, ?_, rfl, by rw [f4]; exact hR.pc, by rw [f6]; exact hR.uid, ?_, ?_, ?_, ?_, ?_, ?_, ?_⟩
   · -- queue view
     apply QV.mono hQ (show B5.partCount = f.book.partCount by rw [f4]; exact hR.pc)
     intro o'' q' hq'
@@ -915,7 +915,7 @@ open Sge Sge.Genesis
 
 /-- `b0` is the book at the start of the wager, `o` the wagered outcome, `rest` the indices still to visit -/
 structure LInv (b0 : Book) (o : Nat) (rest : List Nat) (f : FInfo) : Prop where
-  s : SInv f.book (fun _ => True)
+  s : BkSInv f.book (fun _ => True)
   q : QV f.book (qvOf f.book o f.uq)
   hasQ : (f.book.getQueue o).isSome
   pc : f.book.partCount = b0.partCount
@@ -967,7 +967,7 @@ theorem LInv.writeback {b0 : Book} {o i : Nat} {rest rest' : List Nat} {f f2 : F
     (hgeJ : ∀ o' j, j ≠ i → f2.book.getExp o' j = f.book.getExp o' j) (hst : f2.book.getExp o i = some pe.2)
     (hcur : ∀ o', (f2.book.getExp o' i).map (fun x => (x.exposure, x.bet)) = (f.book.getExp o' i).map (fun x => (x.exposure, x.bet)))
     (hasQ : (f2.book.getQueue o).isSome)
-    (hS : SInv f2.book (fun j => j ≠ i)) (hR : RndAt f2.book i) (hQ : QV f2.book (qvOf f2.book o f2.uq))
+    (hS : BkSInv f2.book (fun j => j ≠ i)) (hR : RndAt f2.book i) (hQ : QV f2.book (qvOf f2.book o f2.uq))
     (hp2 : p2.idx = i ∧ p2.addr = pe.1.addr ∧ p2.totalBet = pe.1.totalBet + Δb)
     (he2 : e2 = { pe.2 with exposure := pe.2.exposure + Δπ, bet := pe.2.bet + Δb, fulfilled := c })
     (hnf : (p2.notFilled : Int) = sumBy (unfAt i) f2.book.pexps - unfAt i pe.2 + unfAt i e2)
@@ -1180,7 +1180,7 @@ theorem visit_LInv (b0 : Book) (o : Nat) (ov mult : Dec) (mo : List Nat) (ms : L
     generalize stage1 o ov mult thr f pe = x1 at s1 s2 s3 s4 s5 s6 s7 s8 s9 s10 s11 s12 s13 s14 s15 s16 s17 ⊢
     obtain ⟨p1, e1, cl, f1⟩ := x1
     simp only at s1 s2 s3 s4 s5 s6 s7 s8 s9 s10 s11 s12 s13 s14 s15 s16 s17
-    have hS1 : SInv f1.book (fun _ => True) := SInv.of_stores h.s s7 s8 s9 s11 s12 (by rw [s10]) (by rw [s10]; exact h.s.sQ)
+    have hS1 : BkSInv f1.book (fun _ => True) := BkSInv.of_stores h.s s7 s8 s9 s11 s12 (by rw [s10]) (by rw [s10]; exact h.s.sQ)
     have hgq1 : ∀ o', f1.book.getQueue o' = f.book.getQueue o' := fun o' => Book.getQueue_congr s10 o'
     have hge1 : ∀ o' j, f1.book.getExp o' j = f.book.getExp o' j := by intro o' j; unfold Book.getExp; rw [s8]
     have hgp1 : ∀ j, f1.book.getPart j = f.book.getPart j := by intro j; unfold Book.getPart; rw [s7]
@@ -1389,7 +1389,7 @@ theorem processWager_sums (b b' : Book) (o betId : Nat) (ov mult : Dec) (mo : Li
       rcases hL with hL | hL
       · exact absurd hL herr
       · obtain ⟨k1, k2⟩ := Book.setQueue_keys fL.book o fL.uq hL.s.sQ hL.hasQ
-        refine ⟨⟨SInv.of_stores hL.s rfl rfl rfl rfl rfl k1 k2, ?_⟩, hL.pc, hL.uid, hL.partRel, ?_, ?_, hL.fwf⟩
+        refine ⟨⟨BkSInv.of_stores hL.s rfl rfl rfl rfl rfl k1 k2, ?_⟩, hL.pc, hL.uid, hL.partRel, ?_, ?_, hL.fwf⟩
         · apply QV.mono hL.q (show (fL.book.setQueue o fL.uq).partCount = fL.book.partCount from rfl)
           intro o' q' hq'
           have hq0 : qvOf fL.book o fL.uq o' = some q' := by
